@@ -88,3 +88,39 @@ PROP["manifest"]["level_text"] += (
     "(update stream vs UpdateMetadata/UpdateSize, refresh vs refresh, readers of Metadata(), Add/Remove, any other exported entry) "
     "hold a common mutex, at least one of them exclusively; the obligation is shown to fail on the D14 shape and on seeded change "
     "c15_seed2; lock_order: the four mutexes are only ever nested in one order.")
+# round 2 (builder bVALEQ4): latency naming / -latency_windows parsing (Model/LatencyNames.lean, Lemmas/LatencyNames.lean,
+# Props/C15LatNames.lean); tied to the code by the stateless lt ops dstr / name / pdur / parsew (go/vcorr/lt.go,
+# lean/Driver/LT.lean; corpus/C15/lat_names.ops)
+PROP["modules"] += ["Gnmi.Model.LatencyNames", "Gnmi.Lemmas.LatencyNames", "Gnmi.Props.C15LatNames"]
+PROP["theorems"] += ["Gnmi.C15LatNames." + t for t in [
+    # printing and parsing back
+    "durationString_roundtrip", "compact_preserves_parse", "compact_roundtrip", "durationString_injective",
+    "compactDurationString_injective", "durationString_fits_buffer", "parseDuration_fuel", "parseDuration_int64",
+    "parseDuration_sum_wraps", "implDefined_unreachable_partial",
+    # names and paths
+    "statTypeString_injective", "metaName_split", "metadataName_injective", "metadataName_injective_general",
+    "metadataName_unknown_collide", "path_injective",
+    # ParseWindows
+    "parseWindows_accepts_iff", "parseWindows_rejects_non_multiple", "parseWindows_first_parse_error",
+    "parseWindows_first_non_multiple", "parseWindows_zero_period_panics", "parseWindows_zero_period",
+    "parseWindows_single", "parseWindows_int64",
+    # names of the accepted windows
+    "parseWindows_names_distinct", "parseWindows_names_nodup"]] + ["Gnmi.LatNames." + t for t in [
+    "formatU_roundtrip", "parseDuration_strip", "roundRNE_exact", "mul_canon", "toU64_canon", "parseLoop_fuel_irrel",
+    "parseLoop_ne_outOfFuel", "fmtIntLoop_fuel", "formatU_length_le"]]
+PROP["trusted_base"] = PROP["trusted_base"] + [
+    "latency naming: Go strings as byte lists; time.Duration.String / time.ParseDuration of the Go standard library modelled "
+    "from go1.23.5 src/time (format.go, time.go), float64 as exact IEEE-754 binary64 round-to-nearest-even on non-negative "
+    "values (Model/LatencyNames.lean F64); validated against the real functions (lt ops dstr/name/pdur/parsew)",
+]
+PROP["manifest"]["level_text"] += (
+    " Latency naming (Props/C15LatNames.lean, over Model/LatencyNames.lean = CompactDurationString, StatType.String, MetadataName, "
+    "Path, ParseWindows and the standard library's Duration.String / ParseDuration with its float64 fraction arithmetic): "
+    "compact_roundtrip / durationString_roundtrip (for every int64 duration ParseDuration accepts what CompactDurationString and "
+    "Duration.String print and returns the duration; compact_preserves_parse: for any string the suffix surgery does not change "
+    "the parse), hence compactDurationString_injective, metadataName_injective and path_injective (no two (window, Avg/Max/Min) "
+    "pairs share a metadata name or path), parseWindows_accepts_iff (non-zero period: accepted iff every td parses and every "
+    "duration satisfies dur % p == 0 with Go's truncated remainder, result = the parsed durations in order; first error wins), "
+    "parseWindows_zero_period_panics (period 0: integer divide by zero as soon as a td parses), parseWindows_names_nodup "
+    "(pairwise different accepted windows give pairwise different metadata names); tied to the code by the lt ops "
+    "dstr / name / pdur / parsew.")
